@@ -295,6 +295,7 @@ type Observation struct {
 	Rels     map[string][]string `json:"rels"`     // FindRelationsByFeature
 	Colls    map[string][]string `json:"colls"`    // FindCollectionsByFeature
 	Traverse map[string][]string `json:"traverse,omitempty"`
+	Geometry map[string][]int    `json:"geometry,omitempty"` // resolved vertex indices of paths (Polyline) and areas (Polygon loops, -1 after each loop)
 	Problems []string            `json:"problems,omitempty"` // panics and internal inconsistencies seen while observing
 }
 
@@ -306,6 +307,7 @@ type Options struct {
 	Traverse  bool
 	Each      bool
 	EachCores int
+	Geometry  bool
 }
 
 func guard(problems *[]string, what string, f func()) {
@@ -523,6 +525,47 @@ func Observe(w b6.World, names []string, o Options) Observation {
 					l = append(l, Name(cs.FeatureID()))
 				}
 				obs.Colls[n] = sortedWithDuplicates(l)
+			})
+		}
+	}
+	if o.Geometry {
+		obs.Geometry = map[string][]int{}
+		for _, n := range names {
+			n := n
+			id := ID(n)
+			guard(&obs.Problems, "geometry "+n, func() {
+				f := w.FindFeatureByID(id)
+				if f == nil {
+					return
+				}
+				switch id.Type {
+				case b6.FeatureTypePath:
+					if p, ok := f.(b6.PhysicalFeature); ok {
+						vs := []int{}
+						for _, pt := range *p.Polyline() {
+							vs = append(vs, VertexOf(s2.LatLngFromPoint(pt)))
+						}
+						obs.Geometry[n] = vs
+					}
+				case b6.FeatureTypeArea:
+					if a, ok := f.(b6.AreaFeature); ok {
+						vs := []int{}
+						for i := 0; i < a.Len(); i++ {
+							poly := a.Polygon(i)
+							if poly == nil {
+								vs = append(vs, -3)
+								continue
+							}
+							for j := 0; j < poly.NumLoops(); j++ {
+								for _, pt := range poly.Loop(j).Vertices() {
+									vs = append(vs, VertexOf(s2.LatLngFromPoint(pt)))
+								}
+								vs = append(vs, -1)
+							}
+						}
+						obs.Geometry[n] = vs
+					}
+				}
 			})
 		}
 	}
